@@ -4,6 +4,7 @@ import Driver.Registry
 import Driver.Bind
 import Driver.Deps
 import Driver.Finder
+import Driver.Discover
 open Lean
 
 def dispatch (j : Json) : Except String Json := do
@@ -16,6 +17,7 @@ def dispatch (j : Json) : Except String Json := do
   | "deps" => Driver.DepsD.handle j
   | "middleware" => Driver.DepsD.handleMw j
   | "finder" => Driver.FinderD.handle j
+  | "discover" => Driver.DiscoverD.handle j
   | "ping" => pure (Json.mkObj [("pong", Json.bool true)])
   | _ => throw s!"unknown op {op}"
 
